@@ -481,6 +481,66 @@ def nowait_cancel_script(rnd, sid):
     return sc
 
 
+def abandoned_shutdown_script(rnd, sid):
+    """a Shutdown that never gets as far as writing CloseConnection: it waits at the gate while negotiation runs, or behind
+    a write loop whose current frame the peer has not taken yet, and its context ends first. Nothing of it reached the wire;
+    the connection is as established as before: every keep-alive afterwards (and the ones that arrived meanwhile) must be
+    acknowledged, requests still work. Compared with the model and judged by pred_c07."""
+    how = rnd.choice(["negotiating", "busy", "busy", "before-connect"])
+    version = 2 if how == "negotiating" else rnd.choice([1, 2])
+    b = cc.SB(sid, version=version)
+    tag = rnd.randrange(1, 1 << 20) * 64
+    kid = rnd.randrange(10, 1 << 30)
+    sd = 50
+    if how == "before-connect":
+        b.steps.append(dict(b.connect_step, op="new_client"))
+        b.op("shutdown", caller=sd)
+        b.cancel(sd)
+        b.connect(cur=rnd.choice([1, 2]), mx=2)
+    elif how == "negotiating":
+        b.connect(negotiate=False)
+        b.expect()                                              # GetSupportedVersion
+        b.op("shutdown", caller=sd)                             # waits at the gate
+        kid += 1
+        b.keepalive(kid)
+        b.expect()
+        b.cancel(sd)
+        b.reply(0, cc.T_GSVR, pl=dict(k="gsvr", cur=2, max=2, status=0), ver=2)
+        b.op("wait_ready")
+    else:
+        b.connect(cur=rnd.choice([1, 2]), mx=2)
+        b.send(1, rnd.choice(REQ_TYPES), rnd.choice([4, 300]), tag + 1, expect=False)     # in the write loop's hand, unread
+        b.op("shutdown", caller=sd)                             # queued behind it
+        if rnd.random() < 0.5:
+            kid += 1
+            b.keepalive(kid)
+            b.cancel(sd)
+            b.req_index[1] = b.nseen
+            b.expect()
+            b.expect()                                          # the acknowledgement
+        else:
+            b.cancel(sd)
+            b.req_index[1] = b.nseen
+            b.expect()
+        b.reply_to(1, 1023, 3, tag + 2)
+        b.wait(1)
+    for _ in range(rnd.randrange(2, 5)):
+        kid += 1
+        b.keepalive(rnd.choice([kid, 0, 4294967295]))
+        b.expect()
+    b.send(2, rnd.choice(REQ_TYPES), 5, tag + 3)
+    kid += 1
+    b.keepalive(kid)
+    b.expect()
+    b.reply_to(2, 1023, 4, tag + 4)
+    b.wait(2)
+    b.op("drain")
+    b.op("state")
+    sc = b.script()
+    sc["family"] = "abandoned-shutdown"
+    return sc
+
+
 def class_scripts(seed, thorough):
     rnd = random.Random(seed + 29)
     out = []
@@ -537,7 +597,8 @@ def run(tier, seed, replay=None):
         rb = random.Random(seed + 41)
         scripts = (class_scripts(seed, thorough) + gen_scripts(seed, 3000 if thorough else 500)
                    + [cc.coalesced_script(rb, "c07-coalesced-%d" % i, "ka") for i in range(400 if thorough else 60)]
-                   + [nowait_cancel_script(rb, "c07-nowaitcancel-%d" % i) for i in range(200 if thorough else 30)])
+                   + [nowait_cancel_script(rb, "c07-nowaitcancel-%d" % i) for i in range(200 if thorough else 30)]
+                   + [abandoned_shutdown_script(rb, "c07-abandonedshutdown-%d" % i) for i in range(160 if thorough else 24)])
     def view_of(sc, g):
         v = cc.go_view(sc, g)
         v["order"], v["drained"] = cc.c07_order(sc, g)
